@@ -223,7 +223,7 @@ package controller
 //@   ensures[C15.persist] old(cfgMap(f.fan)) == nil && err == nil && !(mapLoadOK[old(mapLoadCount)] && mapLoadRes[old(mapLoadCount)] != 0) ==> dbHas["fanPwmMap"][persistence.fanId(f.fan)]
 //@   ensures f.fan == old(f.fan) && f.persistence == old(f.persistence) && persistence.dbWF() && initRuns == old(initRuns)
 //@   modifies f.pwmMap, each(map[int]int)[_], pwmWrites, lastPwm, lastPwmErr, modeWrites, lastMode, modeVerified, fileInt, procWorld, started, lastReadFailed, supportsResult, f.fan.(*fans.HwMonFan).Pwm, f.fan.(*fans.FileFan).Pwm, f.fan.(*fans.CmdFan).Pwm
-//@   modifies dbBucket, dbHas, dbVal, txBucket, txHas, txVal, decodeFailed, mapLoadCount, mapLoadOK, mapLoadRes
+//@   modifies dbBucket, dbHas, dbVal, txBucket, txHas, txVal, txStarted, txCommits, decodeFailed, mapLoadCount, mapLoadOK, mapLoadRes
 
 //@ func (*DefaultFanController).computePwmMap
 //@   props C15 C16
@@ -236,7 +236,7 @@ package controller
 //@   ensures[C15.persist] old(cfgMap(f.fan)) == nil && err == nil && !(mapLoadOK[old(mapLoadCount)] && mapLoadRes[old(mapLoadCount)] != 0) ==> dbHas["fanPwmMap"][persistence.fanId(f.fan)]
 //@   ensures f.fan == old(f.fan) && f.persistence == old(f.persistence) && persistence.dbWF() && initRuns == old(initRuns)
 //@   modifies f.pwmMap, each(map[int]int)[_], pwmWrites, lastPwm, lastPwmErr, modeWrites, lastMode, modeVerified, fileInt, procWorld, started, lastReadFailed, supportsResult, f.fan.(*fans.HwMonFan).Pwm, f.fan.(*fans.FileFan).Pwm, f.fan.(*fans.CmdFan).Pwm
-//@   modifies dbBucket, dbHas, dbVal, txBucket, txHas, txVal, decodeFailed, mapLoadCount, mapLoadOK, mapLoadRes, held, unlocks
+//@   modifies dbBucket, dbHas, dbVal, txBucket, txHas, txVal, txStarted, txCommits, decodeFailed, mapLoadCount, mapLoadOK, mapLoadRes, held, unlocks
 
 //@ opaque func (*DefaultFanController).waitForFanToSettle
 //@   modifies fan.(*fans.FileFan).Rpm, fan.(*fans.CmdFan).Rpm, procWorld, started, lastReadFailed, lastRpmRead
